@@ -162,6 +162,48 @@ def check_measure_motion(case, rec):
     rec.nontrivial(cg.is_generic(ops) and mesh.Ne >= 2)
 
 
+# (added by the lead) a mesh merged with its mirror image: one element group then holds elements of both orientations; measure and
+# centroid are those of the union (every element counts with its own positive measure)
+
+
+def enum_mixed_orientation(tier):
+    for et in gm.T2D + gm.T3D:
+        shape = cg.shape_of(et)
+        r = _table_recipe(et, shape in ("QUAD", "HEXA"), None, 0.7)
+        for plane in ("x", "oblique"):
+            yield dict(recipe=r, plane=plane)
+
+
+def check_mixed_orientation(case, rec):
+    from EasyFEA import Mesh
+
+    r = case["recipe"]
+    dim = gm.dim_of(r["elemType"])
+    half = gm.build(r)
+    types = gm.mesh_types(half)
+    X = np.asarray(half.coord, float)
+    meas, c0 = _exact_2d3d(r)
+    # mirror plane outside the body (the two halves do not overlap)
+    n = np.array([1.0, 0.0, 0.0]) if case["plane"] == "x" else np.array([2.0, 1.0, 0.0]) / np.sqrt(5.0)
+    p0 = (float((X @ n).max()) + 0.25) * n
+    mirror = half.copy()
+    mirror.Symmetry(tuple(p0), tuple(n))
+    merged = Mesh.Merge([half, mirror])
+    sig = dict(elemType=r["elemType"], types=types, dim=dim, plane=case["plane"])
+    rec.label("mixed:" + types, "plane:" + case["plane"])
+    c_m = c0 - 2.0 * float((c0 - p0) @ n) * n
+    rec.close(_measure(mirror, dim) - meas, meas, TOL_ID, "measure_moved", f"{types}: measure of the mirror image", **sig)
+    rec.close(_measure(merged, dim) - 2.0 * meas, 2.0 * meas, TOL_ID, "measure_mixed_orientation",
+              f"{types}: measure of a mesh merged with its mirror image is {_measure(merged, dim)!r}, twice the measure of one half is {2 * meas!r}", **sig)
+    rec.close(np.asarray(merged.center, float) - 0.5 * (c0 + c_m), _coord_scale(X, []) + 1.0, TOL_ID, "centroid_mixed_orientation",
+              f"{types}: centre of the merged mesh {np.asarray(merged.center)} vs the mean of the two halves {0.5 * (c0 + c_m)}", **sig)
+    for g in gm.main_groups(merged):
+        wJ = np.asarray(g.Get_weightedJacobian_e_pg(MASS), float)
+        rec.require(bool((wJ.sum(axis=1) > 0).all()), "element_measures_positive",
+                    f"{types}: {int((wJ.sum(axis=1) <= 0).sum())} of the {g.Ne} elements of the merged group have a non-positive measure", **sig)
+    rec.nontrivial(True)
+
+
 # ------------------------------------------------------------------------------------------
 # (b) normals of the boundary groups
 
@@ -927,6 +969,7 @@ def enum_location(tier):
 
 SUBS = [
     Sub("measure_motion", check_measure_motion, gen=measure_cases, quick=120, thorough=1500, shards=6),
+    Sub("mixed_orientation", check_mixed_orientation, enum=enum_mixed_orientation, doc="every element type x mirror plane: a mesh merged with its mirror image"),
     Sub("normals_2d", check_normals_2d, gen=lambda: normals2d_cases(False), quick=130, thorough=1500, shards=4),
     Sub("normals_embedded", check_normals_2d, gen=lambda: normals2d_cases(True), quick=70, thorough=800, shards=4),
     Sub("normals_3d", check_normals_3d, gen=normals3d_cases, quick=80, thorough=600, shards=6),
